@@ -144,6 +144,7 @@ func C02(c *Ctx) {
 	c.methodIterationRule("C02-8")
 	c.nodeAccessorRule("C02-10")
 	c.createFunctionShapeRule("C02-11", "reverse-pointer")
+	c.lateShapeRules("C02-12", "loop-names")
 	c.namingRule("C02-9", "/pkg/builder/model", "/pkg/builder", "/pkg/generator/model", "/pkg/generator")
 }
 
